@@ -32,9 +32,27 @@ class Exec:
         if ref is None or ref >= len(self.refs) or ref < -len(self.refs):
             return None
         iid = self.refs[ref]
-        return iid
+        return iid if iid != -1 else None
 
     def do(self, st):
+        """one step; an exception that propagates out of an application-level API call back to the calling application
+        (e.g. its own subscriber raising from on_subscribe) is the application's own business: logged, run continues"""
+        n_refs = len(self.refs)
+        self.w.last_iid = None
+        try:
+            return self._do(st)
+        except (Hang, vloop.Budget):
+            raise
+        except Exception as ex:
+            if st[0] in ('start', 'finish', 'pump', 'settle', 'deliver', 'advance', 'snapshot', 'cut', 'inject', 'gate', 'gate_open',
+                         'gate_close', 'deliver_nosettle'):
+                raise
+            self.w.rec.log('-', 'app_call_raised', kind=type(ex).__name__)
+            if st[0] in ('rr', 'fnf', 'push', 'stream', 'channel', 'probe', 'stream_raising_sub') and len(self.refs) == n_refs:
+                self.refs.append(self.w.last_iid if self.w.last_iid is not None else -1)
+            self.w.settle()
+
+    def _do(self, st):
         w = self.w
         op = st[0]
         a = st[1:]
@@ -53,6 +71,10 @@ class Exec:
             self.refs.append(w.request_channel(a[0], tuple(a[1]), a[2], a[3] if len(a) > 3 else None,
                                                a[4] if len(a) > 4 else True, a[5] if len(a) > 5 else None,
                                                a[6] if len(a) > 6 else True))
+        elif op == 'probe':
+            self.refs.append(w.request_response(a[0], tuple(a[1]), {'mode': 'immediate', 'resp': list(a[2])}, probe=True))
+        elif op == 'stream_raising_sub':
+            self.refs.append(w.request_stream(a[0], tuple(a[1]), 5, a[2], True, sub_raise_in=[a[3]]))
         elif op == 'subscribe':
             iid = self._it(a[0])
             if iid is None or w.interaction(iid).get('subscribed'):
@@ -135,6 +157,9 @@ class Exec:
         elif op == 'lease':
             if not w.publish_lease(a[0], a[1]):
                 return self._skip()
+        elif op == 'inject':
+            if not self._inject(a[0], a[1], a[2] if len(a) > 2 else {}):
+                return self._skip()
         elif op == 'snapshot':
             w.snapshot(a[0] if a else '')
         elif op == 'finish':
@@ -152,6 +177,31 @@ class Exec:
 
     def _skip(self):
         self.skipped += 1
+
+    def _inject(self, dst, cls, p):
+        """hostile peer: put one junk frame (class cls) on the link towards dst, at a frame boundary"""
+        from . import junk
+        w = self.w
+        src = 's' if dst == 'c' else 'c'
+        d = w.dirs[src]
+        if d.cut is not None or len(d.obs) != 0:
+            return False
+        live = set()
+        fin = set()
+        try:
+            live = set(w.eps[dst]._stream_control._streams.keys())
+        except Exception:
+            pass
+        bodies, sid, setup = junk.make(cls, p, dst, live, self.refs, w)
+        if bodies is None:
+            return False
+        w.rec.log(dst, 'inject', kind=cls, sid=sid, x=1 if setup else 0, n=len(bodies))
+        for b in bodies:
+            if w.mode == 'tcp':
+                d.inject(len(b).to_bytes(3, 'big') + b)
+            else:
+                d.inject(b)
+        return True
 
     def run(self, prog, wall=20):
         old = signal.signal(signal.SIGALRM, _alarm)
